@@ -852,7 +852,14 @@ class Rewriter:
             )
 
         if expr.kind in {"eq", "ne"}:
-            if x.key > y.key:
+            try:
+                swap = x.key > y.key
+            except TypeError:
+                # keys of constants that hold values of different
+                # types (a number and a named constant, say) are not
+                # orderable
+                swap = repr(x.key) > repr(y.key)
+            if swap:
                 # make eq and ne unique with respect to their operands
                 return relop(y, x)
 
